@@ -244,3 +244,33 @@ where
         acc
     }
 }
+
+/* ===================== verification hooks ===================== */
+
+#[cfg(feature = "verif-hooks")]
+impl KMVAcc {
+    /// Read-only view for the external verification harness:
+    /// `(heap contents ascending, set contents ascending, k)`.
+    #[must_use]
+    pub fn verif_state(&self) -> (Vec<f64>, Vec<f64>, usize) {
+        let mut h: Vec<f64> = self.heap.iter().map(|r| r.into_inner()).collect();
+        h.sort_by(f64::total_cmp);
+        let mut s: Vec<f64> = self.set.iter().map(|r| r.into_inner()).collect();
+        s.sort_by(f64::total_cmp);
+        (h, s, self.k)
+    }
+
+    /// Feed one rank directly (the harness supplies hand-picked ranks; NaN is rejected).
+    pub fn verif_try_insert(&mut self, r: f64) {
+        if let Ok(r) = NotNan::new(r) {
+            self.try_insert(r);
+        }
+    }
+}
+
+/// The rank the KMV combiner assigns to a value (verification harness only).
+#[cfg(feature = "verif-hooks")]
+#[must_use]
+pub fn verif_rank_from_value<T: Hash>(v: &T) -> f64 {
+    rank_from_value(v).into_inner()
+}
